@@ -950,11 +950,18 @@ def _single_field_components(model, rep):
         tests = [x for x in ast.walk(init.node) if isinstance(x, ast.Call)
                  and src(x.func) == "isinstance" and len(x.args) == 2
                  and "ElementComposite" in src(x.args[1])]
-        handled = bool(tests) and (
-            any(isinstance(x, ast.Raise) for x in ast.walk(init.node))
-            or any(isinstance(x, ast.Attribute) and x.attr == "elems"
-                   and isinstance(x.ctx, ast.Load)
-                   and src(x.value) != "self" for x in ast.walk(init.node)))
+        flattens = any(isinstance(x, ast.Attribute) and x.attr == "elems"
+                       and isinstance(x.ctx, ast.Load)
+                       and src(x.value) != "self"
+                       for x in ast.walk(init.node))
+        refuses = any(isinstance(x, ast.If) and any(
+            t_ in list(ast.walk(x.test)) for t_ in tests) and any(
+            isinstance(y, ast.Raise) for y in ast.walk(x))
+            for x in ast.walk(init.node))
+        # the composite wrapper has to flatten (Element.__mul__ relies on the
+        # constructor for a * (b * c)); the vector wrapper can only refuse
+        handled = bool(tests) and (flattens if clsn == "ElementComposite"
+                                   else (flattens or refuses))
         if handled:
             rep.ok(L4, cons, "a composite component is flattened into its "
                    "components (or refused)")
